@@ -53,7 +53,7 @@ def classify(f, case):
             return "greedy_rest_decomposition"
         if claim == "duration" and not info.get("duration_ok", True):
             return "clock_stops_before_piece_end"
-        if claim == "bar_caps" and not info.get("duration_ok", True) and not w.get("extra") and w.get("missing") \
+        if claim == "bar_caps" and info.get("clock_short") and not w.get("extra") and w.get("missing") \
                 and all(x > info.get("clock_end", 10 ** 9) for x in w["missing"]):
             return "clock_stops_before_piece_end"
     return None
